@@ -158,5 +158,52 @@ def eraseBitsKvs : List (String × Json) → List (String × Json)
   | (k, v) :: r => (k, eraseBits v) :: eraseBitsKvs r
 end
 
+/-! ### the reading side of a CSV output file (RFC 4180) -/
+
+/-- where the reader is inside a record -/
+inductive Mode where
+  /-- a field begins -/
+  | start
+  /-- inside an unquoted field -/
+  | plain
+  /-- inside a quoted field -/
+  | quoted
+  /-- inside a quoted field, right after a double quote: it closes the field unless another one follows -/
+  | quoteSeen
+  deriving DecidableEq, Inhabited
+
+/-- the fields of one record (a row without its terminating newline), unescaped.  `none`: not a record — a
+quoted field that never closes, or text between a closing quote and the next comma. -/
+def readAux : List Char → Mode → List Char → List (List Char) → Option (List (List Char))
+  | [], .quoted, _, _ => none
+  | [], _, cur, acc => some ((cur.reverse :: acc).reverse)
+  | c :: cs, .start, _, acc =>
+    if c = '"' then readAux cs .quoted [] acc
+    else if c = ',' then readAux cs .start [] ([] :: acc)
+    else readAux cs .plain [c] acc
+  | c :: cs, .plain, cur, acc =>
+    if c = ',' then readAux cs .start [] (cur.reverse :: acc)
+    else readAux cs .plain (c :: cur) acc
+  | c :: cs, .quoted, cur, acc =>
+    if c = '"' then readAux cs .quoteSeen cur acc
+    else readAux cs .quoted (c :: cur) acc
+  | c :: cs, .quoteSeen, cur, acc =>
+    if c = '"' then readAux cs .quoted ('"' :: cur) acc
+    else if c = ',' then readAux cs .start [] (cur.reverse :: acc)
+    else none
+
+def readRow (row : List Char) : Option (List (List Char)) := readAux row .start [] []
+
+/-- cut a file's text into records: a newline ends a record unless it is inside a quoted field (every `"`
+toggles the quoting state; `""` toggles twice).  Returns the complete records and the unterminated rest. -/
+def splitRecordsAux : List Char → Bool → List Char → List (List Char) → List (List Char) × List Char
+  | [], _, cur, acc => (acc.reverse, cur.reverse)
+  | c :: cs, q, cur, acc =>
+    if c = '"' then splitRecordsAux cs (!q) (c :: cur) acc
+    else if c = '\n' ∧ q = false then splitRecordsAux cs false [] (cur.reverse :: acc)
+    else splitRecordsAux cs q (c :: cur) acc
+
+def splitRecords (t : List Char) : List (List Char) × List Char := splitRecordsAux t false [] []
+
 end SinkRead
 end Compass
